@@ -40,6 +40,17 @@ pub struct Environment {
     declarations: Declarations,
 }
 
+/// The key identifying a variable (name and suffix, but not version) in the
+/// version environments. The suffix is separated from the name by a character
+/// which cannot occur in an identifier: the debug form `x_0` of the renamed
+/// variable `x` is also the name of a variable the user may declare.
+fn version_key(name: &VariableName) -> String {
+    match name.suffix() {
+        Some(suffix) => format!("{}.{}", name.name(), suffix),
+        None => name.name().clone(),
+    }
+}
+
 impl Environment {
     /// Returns a new environment initialized with the parameters of the template or function.
     pub fn new(parameters: &Parameters, declarations: &Declarations) -> Environment {
@@ -56,22 +67,19 @@ impl Environment {
 
     /// Gets the current (scoped) version of the variable.
     pub fn get_current_version(&self, name: &VariableName) -> Option<Version> {
-        // Need to use format to include the suffix.
-        let name = format!("{:?}", name.without_version());
+        let name = version_key(name);
         self.scoped_versions.get_variable(&name).cloned()
     }
 
     /// Gets the range of versions seen for the variable.
     pub fn get_version_range(&self, name: &VariableName) -> Option<Range<Version>> {
-        // Need to use format to include the suffix.
-        let name = format!("{:?}", name.without_version());
+        let name = version_key(name);
         self.global_versions.get_variable(&name).map(|max| 0..(max + 1))
     }
 
     /// Gets the version to apply for a newly assigned variable.
     fn get_next_version(&mut self, name: &VariableName) -> Version {
-        // Need to use format to include the suffix.
-        let name = format!("{:?}", name.without_version());
+        let name = version_key(name);
         let version = match self.global_versions.get_variable(&name) {
             // The variable has not been seen before. This is version 0 of the variable.
             None => 0,
